@@ -70,7 +70,17 @@ func (loader *Loader) resetVisitedPathItemRefs() {
 // LoadFromURI loads a spec from a remote URL
 func (loader *Loader) LoadFromURI(location *url.URL) (*T, error) {
 	loader.resetVisitedPathItemRefs()
-	return loader.loadFromURIInternal(location)
+	doc, err := loader.loadFromURIInternal(location)
+	if err != nil {
+		loader.forgetDocuments()
+	}
+	return doc, err
+}
+
+// forgetDocuments drops the documents cached so far: after a failed load some of them are only
+// partly resolved, and a later load by the same Loader must not be handed those.
+func (loader *Loader) forgetDocuments() {
+	loader.visitedDocuments = nil
 }
 
 // LoadFromFile loads a spec from a local file path
@@ -151,6 +161,7 @@ func (loader *Loader) LoadFromData(data []byte) (*T, error) {
 		return nil, err
 	}
 	if err := loader.ResolveRefsIn(doc, nil); err != nil {
+		loader.forgetDocuments()
 		return nil, err
 	}
 	return doc, nil
@@ -160,7 +171,11 @@ func (loader *Loader) LoadFromData(data []byte) (*T, error) {
 // elements and returns a *T with all resolved data or an error if unable to load data or resolve refs.
 func (loader *Loader) LoadFromDataWithPath(data []byte, location *url.URL) (*T, error) {
 	loader.resetVisitedPathItemRefs()
-	return loader.loadFromDataWithPathInternal(data, location)
+	doc, err := loader.loadFromDataWithPathInternal(data, location)
+	if err != nil {
+		loader.forgetDocuments()
+	}
+	return doc, err
 }
 
 func (loader *Loader) loadFromDataWithPathInternal(data []byte, location *url.URL) (*T, error) {
